@@ -161,6 +161,10 @@ void GlobalGraph::switchNodes(Graph::NodeId nodeA, Graph::NodeId nodeB)
     nodeSonRow = nodeBRow;
   }
 
+  // a row holds at most one edge per neighbor: the reversed edge must not meet an existing one
+  if (father != son && nodeSonRow->second.first.find(father) != nodeSonRow->second.first.end())
+    throw Exception("GlobalGraph::exchangeNodes : nodes linked in both directions " + TextTools::toString(nodeA) + " and " + TextTools::toString(nodeB));
+
   // Edge
   GlobalGraph::Edge foundEdge = foundForwardRelation->second;
 
